@@ -13,6 +13,14 @@ Fixpoint key (v : dval) : Z :=
   | _ => 0
   end.
 
+(** take / skip / nth arguments: the model counts in unary [nat], so an argument next to the usize
+    limit cannot be built.  Every generated input carries fewer than 65536 elements through any
+    adapter, and for such inputs an argument >= 65536 behaves like 65536 (in the std reading:
+    Proofs/ClampProofs.v, [firstn_clamp], [skipn_clamp], [nth_error_clamp]; for the model it follows
+    from [macro_eq_doc] / [doc_eq_std]).  The std column of every line is computed by the real std
+    chain with the TRUE argument, so a wrong clamp would show as model <> std. *)
+Definition cnat (a : Z) : nat := Z.to_nat (Z.min a 65536).
+
 Definition zrange (a b : Z) : list dval := map (fun i => DInt (a + Z.of_nat i)) (seq 0 (Z.to_nat (b - a))).
 
 Definition lib_pred (i : Z) (v : dval) : bool :=
@@ -53,9 +61,9 @@ Definition adapter_of (zsrc : list dval) (v : val) : option adapter :=
       else if String.eqb name "flatten" then Some AFlatten
       else if String.eqb name "map" then Some (AMap (lib_map a))
       else if String.eqb name "rev" then Some ARev
-      else if String.eqb name "skip" then Some (ASkip (Z.to_nat a))
+      else if String.eqb name "skip" then Some (ASkip (cnat a))
       else if String.eqb name "skip_while" then Some (ASkipWhile (lib_pred a))
-      else if String.eqb name "take" then Some (ATake (Z.to_nat a))
+      else if String.eqb name "take" then Some (ATake (cnat a))
       else if String.eqb name "take_while" then Some (ATakeWhile (lib_pred a))
       else if String.eqb name "zip" then Some (AZip zsrc)
       else None
@@ -76,7 +84,7 @@ Definition consumer_of (v : val) : option consumer :=
       else if String.eqb name "fold" then Some (CFold (DInt 0) lib_fold)
       else if String.eqb name "rfold" then Some (CRFold (DInt 0) lib_fold)
       else if String.eqb name "next" then Some CNext
-      else if String.eqb name "nth" then Some (CNth (Z.to_nat a))
+      else if String.eqb name "nth" then Some (CNth (cnat a))
       else if String.eqb name "position" then Some (CPosition (lib_pred a))
       else if String.eqb name "rposition" then Some (CRPosition (lib_pred a))
       else None
